@@ -472,3 +472,25 @@ def declared_result_is_converted(k: int, k2: int, s: str) -> bool:
     if r != [True, s] or not isinstance(r[1], str):
         return False
     return ev(TOK_CONV['dec'], **v)[:1] == [True] and ev(TOK_CONV['flt'], **v) == [True, False]
+
+
+# --- added after round-4 seeded changes: arrays against typed function tests are judged per MEMBER (a member can be a sequence or an array) ----
+
+ARR_FT = (('[(1, 2)]', 'function(xs:integer) as xs:integer', False), ('[(1, 2)]', 'function(xs:integer) as xs:integer+', True), ('[1, ()]', 'function(xs:integer) as xs:integer', False),
+          ('[1, ()]', 'function(xs:integer) as xs:integer?', True), ('[[1, 2]]', 'function(xs:integer) as array(*)', True), ('[[1, 2]]', 'function(xs:integer) as xs:integer', False),
+          ('[1, 2]', 'function(xs:integer) as xs:integer', True), ('[]', 'function(xs:integer) as xs:string', True), ('[(1, 2)]', 'array(xs:integer)', False),
+          ('[(1, 2)]', 'array(xs:integer+)', True), ('["a", 1]', 'function(xs:integer) as xs:string', False), ('["a", 1]', 'function(xs:integer) as item()', True))
+TOK_ARR_FT = [P31.parse('(%s instance of %s, (let $v := %s return $v) instance of %s)' % (a, t, a, t)) for a, t, _ in ARR_FT]
+
+
+@ob(budget=120, bound='12 (array, type) cases with members that are sequences, empty or arrays (index chosen by the solver): a typed function test and '
+                      'array(T) are judged on the members, not on the flattened items',
+    funcs=['elementpath/xpath_tokens/arrays.py:XPathArray.match_function_test', ST + ':match_sequence_type'])
+def array_function_test_per_member(i: int) -> bool:
+    """
+    pre: 0 <= i <= 11
+    post: _
+    """
+    i = [k for k in range(12) if k == i][0]
+    want = ARR_FT[i][2]
+    return TOK_ARR_FT[i].evaluate(XPathContext(item=1)) == [want, want]
